@@ -371,6 +371,25 @@ MUTANTS = [
     ("c18-normalize-unfix-int", ["C18"], "T3", C,
      "    if np.issubdtype(vectors.dtype, np.integer):\n        # integer arrays cannot hold the quotient\n        vectors = vectors.astype('float64')\n\n",
      ""),
+    # ---- C17 (narrow)
+    ("c17-gln-adjoint-unfix-like", ["C17"], "T4", G + "lie/core.py",
+     "def linear_matrix_action(linear_map, n, **kwargs):\n    base_ring, dtype",
+     "def linear_matrix_action(linear_map, n, **kwargs):\n    if \"like\" not in kwargs:\n        kwargs[\"like\"] = linear_map\n\n    base_ring, dtype"),
+    ("c17-linear-action-unfix-batch", ["C17"], "SH8", G + "lie/core.py",
+     "            map_matrix[..., i*n + j] = coords\n\n    return map_matrix\n\ndef sln_linear_action",
+     "            map_matrix[:, i*n + j] = coords\n\n    return map_matrix\n\ndef sln_linear_action"),
+    ("c17-o-to-pgl-unfix-branch", ["C17"], "SH8", G + "lie/core.py",
+     "    b = np.where(A_d[..., 0, 1] < 0, -b, b)\n",
+     "    if A_d[..., 0, 1] < 0:\n        b = -b\n"),
+    ("c17-sl2-irrep-shape", ["C17"], "SH8", G + "lie/core.py",
+     "    im = utils.zeros(A.shape[:-2] +(n, n), like=A)",
+     "    im = utils.zeros(A.shape[:-1] +(n,), like=A)"),
+    ("c17-block-include-slice", ["C17"], "SH8", G + "lie/core.py",
+     "    arr[..., :A_dim, :A_dim] = A",
+     "    arr[:A_dim, :A_dim] = A"),
+    ("c17-slc-to-slr-size", ["C17"], "SH8", G + "lie/core.py",
+     "    result = utils.zeros(mat.shape[:-2] + (2 * dim, 2 * dim),",
+     "    result = utils.zeros(mat.shape[:-2] + (2 * dim, dim),"),
     # ---- C15
     ("c15-drop-reflection-guard", ["C15"], "R1", H,
      "        if (np.abs(eval_differences) > ERROR_THRESHOLD).any():\n            raise GeometryError(\"Not a reflection matrix\")\n",
@@ -742,7 +761,7 @@ def run(pids=None, jobs=16, root=None, quiet=False):
                          None, None, src))
     neutral_dir = os.path.join(os.path.dirname(seeded_dir), "neutral")
     allp = ["C01", "C03", "C04", "C05", "C06", "C08", "C09", "C10", "C11",
-            "C12", "C13", "C14", "C15", "C16", "C18", "C19", "C20"]
+            "C12", "C13", "C14", "C15", "C16", "C17", "C18", "C19", "C20"]
     for nid in NEUTRAL_PATCHES:
         sel = [p for p in allp if want is None or p in want]
         if sel:
